@@ -10,6 +10,7 @@ import (
 	"math/rand"
 	"strings"
 	"sync"
+	"sync/atomic"
 	"testing"
 
 	"gosrc.io/xmpp/stanza"
@@ -505,8 +506,15 @@ func TestVf_C06(t *testing.T) {
 
 func vfC06Concurrent(run *vfkit.Run, table []vfRouteSpec, r *rand.Rand, round int) {
 	router := NewRouter()
-	var mu sync.Mutex
-	ran := map[string][]int{}
+	// handlers record without a lock (a slot claimed by an atomic counter), so that the goroutines really are inside
+	// the router at the same time
+	type rec struct {
+		id    string
+		route int
+	}
+	const G, N = 16, 5000
+	recs := make([]rec, 2*G*N)
+	var nrec int64
 	for i, rs := range table {
 		i := i
 		rt := router.NewRoute()
@@ -522,13 +530,12 @@ func vfC06Concurrent(run *vfkit.Run, table []vfRouteSpec, r *rand.Rand, round in
 			}
 		}
 		rt.HandlerFunc(func(s Sender, p stanza.Packet) {
-			mu.Lock()
 			_, id := vfPacketId(p)
-			ran[id] = append(ran[id], i)
-			mu.Unlock()
+			if k := atomic.AddInt64(&nrec, 1) - 1; int(k) < len(recs) {
+				recs[k] = rec{id, i}
+			}
 		})
 	}
-	const G, N = 8, 4000
 	type job struct {
 		spec vfPacketSpec
 		pkt  stanza.Packet
@@ -568,6 +575,10 @@ func vfC06Concurrent(run *vfkit.Run, table []vfRouteSpec, r *rand.Rand, round in
 		run.Violation("C06/panic:concurrent-routing", fmt.Sprintf("panic %v while %d goroutines routed through one table", p, G), vfC06Case{Routes: table})
 		return
 	default:
+	}
+	ran := map[string][]int{}
+	for k := 0; k < int(atomic.LoadInt64(&nrec)) && k < len(recs); k++ {
+		ran[recs[k].id] = append(ran[recs[k].id], recs[k].route)
 	}
 	for g := 0; g < G; g++ {
 		for _, j := range jobs[g] {
